@@ -352,3 +352,6 @@ func Main(m *testing.M, property string) {
 	}
 	os.Exit(code)
 }
+
+// ScratchCase returns a Case that is never committed to the evidence (helper runs, witnesses).
+func ScratchCase() *Case { return newCase("scratch") }
